@@ -211,7 +211,7 @@ def stepKern (st : St) (cmd : List String) (got : String) : Option (St × Verdic
     | some s =>
       let n := match BSet.maximum s with | some m => (m + 1 + 63) / 64 | none => 0
       some (st, expect (toString n ++ " " ++ toString n ++ " " ++ digest s ++ " true") got)
-  | ["fromdense", y, _, ws] | ["frombitset", y, ws] =>
+  | ["fromdense", y, _, ws] | ["fromdense", y, _, ws, "spare"] | ["frombitset", y, ws] =>
     match parseWords ws with
     | some words =>
       let s := boundsOfBits 0 false (words.flatMap wordBits)
